@@ -20,7 +20,7 @@ Definition err_eqb (a b : err) : bool :=
   | EUnsupported c k, EUnsupported c' k' => N.eqb c c' && kind_eqb k k'
   | EInvalidSpec, EInvalidSpec | ERepeatedFlag, ERepeatedFlag | EDelimiter, EDelimiter | EFailure, EFailure
   | EFault, EFault | EOther, EOther => true
-  (* EOracle / EOutOfFuel are never equal to an observation *)
+  (* EOracle is never equal to an observation *)
   | _, _ => false
   end.
 
@@ -33,7 +33,11 @@ Definition obs_eqb (a b : obs) : bool :=
 
 Record fcase := mkCase { c_v : value; c_spec : fspec; c_o : oracle; c_obs : obs }.
 
-Definition format_check (c : fcase) : bool := obs_eqb (format_value (c_o c) (c_v c) (c_spec c)) (c_obs c).
+Definition format_check (c : fcase) : bool :=
+  match format_value (c_o c) (c_v c) (c_spec c) with
+  | Some r => obs_eqb r (c_obs c)
+  | None => false                         (* out of fuel: never (Properties/C20.v, format_total) *)
+  end.
 Definition format_mismatches (cs : list fcase) : list N := failing format_check cs.
 
 Definition no_oracle : oracle := mkOracle [] [] [] [] [] [] [].
@@ -41,7 +45,7 @@ Definition no_oracle : oracle := mkOracle [] [] [] [] [] [] [].
 Record rcase := mkRCase { r_n : Z; r_d : str; r_radix : Z; r_text : str; r_res : option Z }.
 
 Definition radix_check (c : rcase) : bool :=
-  obs_eqb (format_value no_oracle (VInt (r_n c)) (FStr (r_d c))) (OText (r_text c))
+  option_eqb obs_eqb (format_value no_oracle (VInt (r_n c)) (FStr (r_d c))) (Some (OText (r_text c)))
   && option_eqb Z.eqb (int_new (r_text c) (r_radix c)) (r_res c).
 Definition radix_mismatches (cs : list rcase) : list N := failing radix_check cs.
 
